@@ -102,6 +102,12 @@ structure Tables where
   tupleIsList : Bool := true
   /-- probed: the class of `RenderError` as the wrapper sees it (live: `sa`; `exception` before 5bca26a) -/
   dupExc : Exc := .exception
+  /-- probed (Tie B): every attribute name of the Python object `sa.func` with what `getattr(sa.func, name)` is:
+  "gen" (a `_FunctionGenerator`, i.e. a SQL function), "pyattr" (`__repr__`, `__hash__`, `opts` … — NOT a SQL function) -/
+  funcPyAttrs : List (String × String) := []
+  /-- probed: `to_function` refuses python-attribute names with NotImplementedError (live code, since ff787d9); `false` =
+  the code before: the attribute was called like a SQL function and its str / int result leaked an AttributeError -/
+  funcGuard : Bool := true
 
 /-- the probed class name of `RenderError` ("exception" | "sa" | "notImpl") -/
 def excOfProbe (s : String) : Exc :=
@@ -124,6 +130,24 @@ def normType (typename : String) : String :=
 (since c96400c; before: `self.types_map[typename]` → KeyError) -/
 def getType (tb : Tables) (typename : String) : Option Exc :=
   if tb.typesMap.contains (normType typename) then none else some .notImpl
+
+/-- what `getattr(sa.func, name)` yields -/
+inductive FuncClass | gen | pyattr | missing
+  deriving DecidableEq, Repr
+
+/-- `getattr(sa.func, name)`: a real attribute of the object wins (probed table); otherwise `_FunctionGenerator.__getattr__`:
+a name starting with `__` → AttributeError, any other name (a trailing `_` is stripped) → a new generator -/
+def funcClass (tb : Tables) (name : String) : FuncClass :=
+  match tb.funcPyAttrs.lookup name with
+  | some c => if c == "gen" then .gen else if c == "missing" then .missing else .pyattr
+  | none => if "__".toList.isPrefixOf name.toList then .missing else .gen
+
+/-- the name check at the top of `to_function` (before any argument is evaluated) -/
+def funcNameRaise (tb : Tables) (name : String) : Option Exc :=
+  match funcClass tb name with
+  | .gen => none
+  | .missing => some .notImpl
+  | .pyattr => if tb.funcGuard then some .notImpl else none
 
 /-- alias as seen by `if t.alias:` / `get_alias`: `none` = no alias, `some n` = Identifier with `n` parts -/
 abbrev Al := Option Nat
@@ -161,8 +185,8 @@ inductive Tag
   | select (mode : Mode) (al : Al)
   /-- Union (`isUnion`) / Intersect / Except; kids: left, right -/
   | union (isUnion : Bool) (al : Al)
-  /-- kids: the args, or only `from_arg` when `hasFrom` -/
-  | func (distinct hasFrom : Bool) (al : Al)
+  /-- `name` = `t.op`; kids: the args, or only `from_arg` when `hasFrom` -/
+  | func (name : String) (distinct hasFrom : Bool) (al : Al)
   | binop (op : String) (al : Al)
   | unop (op : String) (al : Al)
   | between (al : Al)
@@ -321,7 +345,8 @@ def pre (tb : Tables) (c : Ctx) (tag : Tag) (kids : List T) : Option Exc :=
     | _ => some .attr
   | .expr =>
     match tag with
-    | .star | .last | .const _ | .ident _ _ _ | .select _ _ | .func _ _ _ | .binop _ _ | .unop _ _ | .between _
+    | .func name _ _ _ => funcNameRaise tb name
+    | .star | .last | .const _ | .ident _ _ _ | .select _ _ | .binop _ _ | .unop _ _ | .between _
     | .interval _ | .window _ | .cast _ _ | .tuple | .variable | .latest | .exists_ _ | .case_ _ => none
     | .param hasAlias => if hasAlias then some .notImpl else none
     | _ => some .notImpl
@@ -371,8 +396,9 @@ def post (tb : Tables) (c : Ctx) (tag : Tag) (kids : List T) : Option Exc :=
     match tag with
     | .const al | .ident _ _ al | .interval al | .window al | .between al | .exists_ al | .case_ al => getAlias al
     | .select mode al => orElse (modeRaise mode) (getAlias al)
-    | .func distinct hasFrom al =>
-      orElse (if distinct && !hasFrom && kids.isEmpty then some .index else none) (getAlias al)
+    | .func name _ _ al =>
+      -- old code only (`funcGuard = false`): a python attribute called without arguments returns a str / int and `.label` fails
+      orElse (if funcClass tb name == .pyattr && !tb.funcGuard && kids.isEmpty then some .attr else none) (getAlias al)
     | .binop op al =>
       let o := lower op
       orElse (if (o == "in" || o == "not in") && kindAt tb kids 1 == .colClause then some .notImpl else none)
@@ -436,13 +462,11 @@ end
 
 /-! ## shape invariants of parser output (not about the renderer; checked on every parsed tree by the harness) -/
 
-/-- local shape conditions: a Star is never the receiver of an operator, `f(DISTINCT)` has an argument, a NativeQuery
-alias has a part, `prepare_select` is only handed Select / Union nodes -/
+/-- local shape conditions: a Star is never the receiver of an operator, a NativeQuery alias has a part, `prepare_select` is only handed Select / Union nodes -/
 def shapedNode (tb : Tables) (c : Ctx) (tag : Tag) (kids : List T) : Bool :=
   match c, tag with
   | .expr, .binop _ _ => kindAt tb kids 0 != .text
   | .expr, .unop _ _ => kindAt tb kids 0 != .text
-  | .expr, .func distinct hasFrom _ => !(distinct && !hasFrom && kids.isEmpty)
   | .from_, .nativeQuery al => al != some 0
   | .sel, .select _ _ | .sel, .union _ _ | .sel, .grp | .sel, .nil => true
   | .sel, _ => false
